@@ -21,6 +21,24 @@ def itersRequest : Sexp → Option String
       let i : Int := (n : Int) - 100
       let sh (l : List Int) := " ".intercalate (l.map toString)
       some s!"{sh (drain intIter (i.toNat + 1) (newIntIter i))} ### {sh (rangeInt i)}"
+  | .list [.atom "k3sl", .list init, cap, .list ops] => do
+      -- a slice under a mutation script: the model iterator under the lowered loop ### the range specification
+      let init ← init.mapM Sexp.nat?
+      let cap ← cap.nat?
+      let ops ← ops.mapM fun
+        | .list [.atom kind, at_, k, v] => do
+            let at_ ← at_.nat?; let k ← k.nat?; let v ← v.nat?
+            match kind with
+            | "set" => some (at_, ScriptOp.set k v)
+            | "append" => some (at_, ScriptOp.append v)
+            | "truncate" => some (at_, ScriptOp.truncate k)
+            | _ => none
+        | _ => none
+      if cap < init.length then none else
+      let sh (l : List (Option (Nat × Nat))) : String :=
+        " ".intercalate (l.map fun | some p => s!"{p.1}:{p.2}" | none => "panic")
+      let m := mkScriptMem init cap
+      some s!"{sh (drainSlice scriptRead (scriptBody ops) (init.length + 1) (newSliceIter init.length) m)} ### {sh (rangeSlice scriptRead (scriptBody ops) init.length m)}"
   | .list [.atom "k10", .atom which, .atom tok, .atom key, .atom val] => do
       -- the shape of the lowered loop body for one form of the range clause; names: k = 1, v = 2
       let tok ← (match tok with | "define" => some RL.Tok.define | "assign" => some RL.Tok.assign | _ => none)
